@@ -99,6 +99,7 @@ type PathQ struct {
 	Cut        func(in ssa.Instruction, st *PathState) bool
 	CutEdge    func(e Edge, st *PathState) bool
 	NoFold     bool // disable branch folding on the tracked value
+	AllConsts  bool // record the constant selected for every phi (not only branch-relevant ones)
 	// TrackedNonNil: tracked values are known non-nil / non-empty (custody rules). Default true when Tracked != nil.
 }
 
@@ -234,7 +235,7 @@ func (q *PathQ) enter(st *PathState, pred *ssa.BasicBlock) {
 		u := upd{phi: phi}
 		if st.Has(op) {
 			u.tracked = true
-		} else if c, ok := st.ConstOf(op); ok && branchRelevant(phi) {
+		} else if c, ok := st.ConstOf(op); ok && (q.AllConsts || branchRelevant(phi)) {
 			u.c = c
 		}
 		upds = append(upds, u)
